@@ -1766,14 +1766,8 @@ class ISLaSolver:
             # holds for the proposed trees: if they did not make it into the tree, we
             # must not eliminate the predicate, but evaluate it again later.
             substituted_tree = result.tree.substitute(substitution)
-            if any(
-                isinstance(orig, DerivationTree)
-                and (path := result.tree.find_node(orig)) is not None
-                and not (
-                    substituted_tree.is_valid_path(path)
-                    and substituted_tree.get_subtree(path).structurally_equal(subst)
-                )
-                for orig, subst in evaluation_result.result.items()
+            if not substitutions_applied(
+                result.tree, substituted_tree, evaluation_result.result
             ):
                 continue
 
@@ -2363,11 +2357,22 @@ class ISLaSolver:
 
         results = []
         # We also have to instantiate all subtrees of the substituted element.
-        for solution in map(subtree_solutions, solutions):
+        for orig_solution in solutions:
+            solution = subtree_solutions(orig_solution)
             if solution:
+                substituted_tree = state.tree.substitute(solution)
+                if not substitutions_applied(
+                    state.tree, substituted_tree, orig_solution
+                ):
+                    # The model assigns a value to a tree and another value to a tree
+                    # below it (e.g., to `start` and to a quantified variable); the
+                    # latter is not reflected in the resulting tree, while the SMT
+                    # formula would be replaced by true: not a solution.
+                    continue
+
                 new_state = SolutionState(
                     state.constraint.substitute_expressions(solution),
-                    state.tree.substitute(solution),
+                    substituted_tree,
                 )
             else:
                 new_state = SolutionState(
@@ -4365,6 +4370,29 @@ def create_fixed_length_tree(
                 )
 
     return None
+
+
+def substitutions_applied(
+    tree: DerivationTree,
+    substituted_tree: DerivationTree,
+    solution: Dict[language.Variable | DerivationTree, DerivationTree],
+) -> bool:
+    """
+    `DerivationTree.substitute` skips the replacement of a tree that occurs below
+    another replaced tree (or inside its own replacement). This function returns True
+    iff all replacements in `solution` for trees occurring in `tree` are reflected in
+    `substituted_tree`, the result of the substitution.
+    """
+
+    return all(
+        not isinstance(orig, DerivationTree)
+        or (path := tree.find_node(orig)) is None
+        or (
+            substituted_tree.is_valid_path(path)
+            and substituted_tree.get_subtree(path).structurally_equal(subst)
+        )
+        for orig, subst in solution.items()
+    )
 
 
 def subtree_solutions(
